@@ -35,8 +35,8 @@ type DocCase struct {
 
 var specC16 = report.Spec{Property: "C16", Check: "C16",
 	Rule: "the 14 built-in documents and the repository's test document, mutated 0-4 deep by a structure aware mutator over the parsed JSON tree (delete key, drop array element, replace by a value of another JSON type, replace a number by one of {0,-1,0.5,1.5,2^53,-2^53,2,256}, replace a string, " +
-		"swap the crs for each of its three forms (uri string/object, wkt with id, referenceSystem), extend an array, duplicate a tile matrix id), half of the mutations aimed at tile matrix fields. Oracle: (a) decoding never panics; (b) if decoding succeeds: encoding succeeds, decode(encode(x)) deep-equals x and encode(decode(encode(x))) is byte-identical to encode(x); " +
-		"(c) unmutated documents: encode(decode(doc)) equals doc as JSON values; (d) must-reject (decided by an independent predicate over the JSON tree): crs or tileMatrices missing/null/of the wrong JSON type, tileMatrices empty or holding a non-object, a required tile matrix field (id, scaleDenominator, cellSize, pointOfOrigin, tileWidth, tileHeight, matrixWidth, matrixHeight) missing or of the wrong JSON type, " +
+		"swap the crs for each of its three forms (uri string/object, wkt with id, referenceSystem), re-spell a crs uri as object or string, extend an array, duplicate a tile matrix id), half of the mutations aimed at tile matrix fields, one third of the multi-mutation cases focused on one sub tree (a tile matrix, a variableMatrixWidths entry, the bounding box, the crs). Oracle: (a) decoding never panics; (b) if decoding succeeds: encoding succeeds, decode(encode(x)) deep-equals x and encode(decode(encode(x))) is byte-identical to encode(x); " +
+		"(c) unmutated documents: encode(decode(doc)) equals doc as JSON values; (c') the encoding of a value decoded earlier in the run (one retained value per shipped document) does not change when other documents are decoded in between; (d) must-reject (decided by an independent predicate over the JSON tree): crs or tileMatrices missing/null/of the wrong JSON type, tileMatrices empty or holding a non-object, a required tile matrix field (id, scaleDenominator, cellSize, pointOfOrigin, tileWidth, tileHeight, matrixWidth, matrixHeight) missing or of the wrong JSON type, " +
 		"pointOfOrigin not two numbers, a size field (sizes, cellSize, scaleDenominator) <= 0, id not an integer string => decoding returns an error. Other mutants may go either way. Non-trivial: >= 1 mutation and (still decodes, or falls in a must-reject class). Distinct by (base, mutations).",
 	Assumptions: []string{"numbers are confined to |v| <= 2^53", "equality of decoded values is reflect.DeepEqual"}}
 
@@ -237,13 +237,56 @@ func genC16(t *rapid.T) DocCase {
 	c := DocCase{Base: rapid.SampledFrom(docNames).Draw(t, "base")}
 	doc := parseDoc(docsBytes[c.Base])
 	n := rapid.IntRange(0, 4).Draw(t, "mutations")
+	// focus: all mutations of the case go into one sub tree (a tile matrix, one of its variable matrix width entries, the
+	// bounding box, the crs), so that two cooperating changes in one object are generated as well
+	var focus []any
+	if top, ok := doc.(map[string]any); ok && n >= 2 && rapid.IntRange(0, 2).Draw(t, "focused") == 0 {
+		switch rapid.IntRange(0, 3).Draw(t, "focusKind") {
+		case 0, 1:
+			if tms, ok := top["tileMatrices"].([]any); ok && len(tms) > 0 {
+				i := rapid.IntRange(0, len(tms)-1).Draw(t, "focusTM")
+				focus = []any{"tileMatrices", float64(i)}
+				if tm, ok := tms[i].(map[string]any); ok {
+					if vs, ok := tm["variableMatrixWidths"].([]any); ok && len(vs) > 0 && rapid.Bool().Draw(t, "focusVMW") {
+						focus = append(focus, "variableMatrixWidths", float64(rapid.IntRange(0, len(vs)-1).Draw(t, "vmw")))
+					}
+				}
+			}
+		case 2:
+			if _, ok := top["boundingBox"]; ok {
+				focus = []any{"boundingBox"}
+			}
+		case 3:
+			focus = []any{"crs"}
+		}
+	}
 	for k := 0; k < n; k++ {
 		var m Mut
 		top, _ := doc.(map[string]any)
-		target := rapid.IntRange(0, 9).Draw(t, "target")
+		target := rapid.IntRange(0, 10).Draw(t, "target")
 		var prefix []any
 		var sub any = doc
+		if focus != nil {
+			if cur, ok := getAt(doc, focus); ok {
+				prefix, sub, target = focus, cur, 99
+			}
+		}
 		switch {
+		case target == 10 && top != nil: // the other spelling of the same crs: "uri" <-> {"uri": "uri"}
+			where := []any{"crs"}
+			if _, ok := top["boundingBox"].(map[string]any); ok && rapid.Bool().Draw(t, "bboxCrs") {
+				where = []any{"boundingBox", "crs"}
+			}
+			if cur, ok := getAt(doc, where); ok {
+				switch v := cur.(type) {
+				case string:
+					m = Mut{Path: where, Op: "set", Val: mustJSON(map[string]any{"uri": v})}
+				case map[string]any:
+					if u, ok := v["uri"].(string); ok {
+						m = Mut{Path: where, Op: "set", Val: mustJSON(u)}
+					}
+				}
+			}
 		case target < 5 && top != nil: // a tile matrix field
 			if tms, ok := top["tileMatrices"].([]any); ok && len(tms) > 0 {
 				i := rapid.IntRange(0, len(tms)-1).Draw(t, "tm")
@@ -446,6 +489,10 @@ func oracleC16(c DocCase) (o report.Outcome) {
 		o.Failf([]string{"roundtrip-bytes"}, "the encoding is not stable: err %v panic %v; first %.300s second %.300s", err, pan, e1, e2)
 		return o
 	}
+	if why := checkRetained(c.Base); why != "" {
+		o.Failf([]string{"shared-state"}, "%s; it happened after decoding %s + %s", why, c.Base, mustJSON(c.Muts))
+		return o
+	}
 	if len(c.Muts) == 0 && c.Raw == "" {
 		var back any
 		_ = json.Unmarshal(e1, &back)
@@ -454,6 +501,39 @@ func oracleC16(c DocCase) (o report.Outcome) {
 		}
 	}
 	return o
+}
+
+// retained values: every shipped document is decoded once and kept together with its encoding. The encoding of a value that
+// nobody touched must not change because other documents were decoded in between ("a stable encoding").
+var (
+	retainedMu  sync.Mutex
+	retainedVal = map[string]*tms20.TileMatrixSet{}
+	retainedEnc = map[string][]byte{}
+)
+
+func checkRetained(justUsed string) string {
+	retainedMu.Lock()
+	defer retainedMu.Unlock()
+	loadDocs()
+	why := ""
+	for _, n := range docNames {
+		if v, ok := retainedVal[n]; ok {
+			if enc, err, pan := encodeTMS(v); err != nil || pan != nil || !bytes.Equal(enc, retainedEnc[n]) {
+				why = fmt.Sprintf("the encoding of the value decoded earlier from the shipped document %s changed although the value was not touched: first %.200s, now %.200s (err %v panic %v)", n, retainedEnc[n], enc, err, pan)
+				delete(retainedVal, n) // refresh, so that only the case that disturbs it is blamed
+			}
+		}
+	}
+	for _, n := range []string{justUsed} {
+		if _, ok := retainedVal[n]; !ok && n != "" {
+			if v, err, pan := decodeTMS(docsBytes[n]); err == nil && pan == nil {
+				if enc, err, pan := encodeTMS(v); err == nil && pan == nil {
+					retainedVal[n], retainedEnc[n] = v, enc
+				}
+			}
+		}
+	}
+	return why
 }
 
 func jsonDiff(p string, a, b any) string {
